@@ -24,7 +24,8 @@ RULE = (
 ASSUMPTIONS = [
     "the shrink/grow branch and the sampled hyperparameter are read from the recorded torch.rand / torch.randperm variates "
     "seen by agilerl.algorithms.core.registry (if none are recorded the oracle accepts either branch and any configured name)",
-    "expected value = dtype(min(max(own_old_value * factor, min), max)) evaluated in Python float arithmetic like the code",
+    "expected value = dtype(min(max(own_old_value * factor, min), max)) evaluated in Python float arithmetic like the code; "
+    "factor pairs include both-below-one and both-above-one, ranges include negative ones (ent_coef / mean_noise)",
     "learning-rate effect is read from param_groups of the optimizer objects the agent holds after the call",
 ]
 REQUIRED_COUNTERS = ["mutations_checked", "other_agents_unchanged_checks", "lr_group_checks", "variates_recorded"]
@@ -64,10 +65,25 @@ def cases(tier, seed):
                 "rounds": int(rng.integers(1, 9 if tier == "quick" else 31)),
                 "cfg_seed": int(rng.integers(1 << 30)),
                 "corner": ["none", "at_min", "at_max", "min_eq_max", "tight_int"][i % 5],
+                # the quantifier says ARBITRARY shrink and grow factors and ranges
+                "factors": ["usual", "usual", "decay_only", "grow_only"][(i // 5) % 4],
+                "negative_range": bool((i // 3) % 3 == 0) or (algo in NEGATIVE_CAPABLE and i % 2 == 0),
                 "seed": int(rng.integers(1 << 30)),
             }
         )
     return out
+
+
+NEGATIVE_CAPABLE = {"PPO": "ent_coef", "IPPO": "ent_coef"}  # a float attribute whose sign is free
+
+
+def _factors(rng, style):
+    """(shrink, grow): the usual pair, or both below one ('decay only'), or both above one ('grow only')."""
+    if style == "decay_only":
+        return float(rng.uniform(0.3, 0.7)), float(rng.uniform(0.75, 0.98))
+    if style == "grow_only":
+        return float(rng.uniform(1.02, 1.3)), float(rng.uniform(1.4, 2.5))
+    return float(rng.uniform(0.5, 0.99)), float(rng.uniform(1.01, 2.0))
 
 
 def _make_cfg(case, algo):
@@ -77,6 +93,14 @@ def _make_cfg(case, algo):
     rng = np.random.default_rng(case["cfg_seed"])
     params, init = {}, {}
     corner = case["corner"]
+    style = case.get("factors", "usual")
+    if case.get("negative_range") and algo in NEGATIVE_CAPABLE:
+        name = NEGATIVE_CAPABLE[algo]
+        lo = -float(rng.uniform(1.0, 3.0))
+        hi = -float(rng.uniform(0.05, 0.9))
+        sh, gr = _factors(rng, style)
+        params[name] = RLParameter(min=lo, max=hi, shrink_factor=sh, grow_factor=gr)
+        init[name] = float(rng.uniform(lo, hi))
     for lr in LR_NAMES[algo]:
         lo = float(10 ** rng.uniform(-5, -3.5))
         hi = float(lo * 10 ** rng.uniform(0.3, 1.5))
@@ -88,7 +112,8 @@ def _make_cfg(case, algo):
         elif corner == "min_eq_max":
             hi = lo
             v = lo
-        params[lr] = RLParameter(min=lo, max=hi, shrink_factor=float(rng.uniform(0.5, 0.99)), grow_factor=float(rng.uniform(1.01, 2.0)))
+        sh, gr = _factors(rng, style)
+        params[lr] = RLParameter(min=lo, max=hi, shrink_factor=sh, grow_factor=gr)
         init[lr] = v
     lo = int(rng.integers(4, 10))
     hi = int(lo + rng.integers(0, 24)) if corner != "min_eq_max" else lo
@@ -99,11 +124,13 @@ def _make_cfg(case, algo):
         v = lo
     elif corner == "at_max":
         v = hi
-    params["batch_size"] = RLParameter(min=lo, max=hi, dtype=int, shrink_factor=float(rng.uniform(0.5, 0.99)), grow_factor=float(rng.uniform(1.01, 2.0)))
+    sh, gr = _factors(rng, style)
+    params["batch_size"] = RLParameter(min=lo, max=hi, dtype=int, shrink_factor=sh, grow_factor=gr)
     init["batch_size"] = v
     lo = int(rng.integers(1, 4))
     hi = int(lo + rng.integers(0, 12))
-    params["learn_step"] = RLParameter(min=lo, max=hi, dtype=int, shrink_factor=float(rng.uniform(0.5, 0.99)), grow_factor=float(rng.uniform(1.01, 2.0)))
+    sh, gr = _factors(rng, style)
+    params["learn_step"] = RLParameter(min=lo, max=hi, dtype=int, shrink_factor=sh, grow_factor=gr)
     init["learn_step"] = int(rng.integers(lo, hi + 1))
     if rng.random() < 0.4:
         params.pop("learn_step")
@@ -317,6 +344,8 @@ def run_case(case):
                     changed_any = True
                 if new in (lo, hi) or target.startswith("lr"):
                     bound_or_lr = True
+                if lo < 0:
+                    rec.hit("negative_range_mutations")
             # learning rates: every group of every optimizer registered with that lr attribute
             for n in names:
                 if n.startswith("lr"):
